@@ -211,6 +211,12 @@ def build(node, env=None, path='r'):
         out = ds[form]
         if isinstance(form, np.ndarray) and form.dtype != bool and form.size:
             form[...] = 0  # the caller re-uses its index buffer afterwards: the selection must not follow it
+        for lst in ([form] if isinstance(form, list) else [x for x in form if isinstance(x, list)]
+                    if isinstance(form, tuple) else []):
+            if lst:  # ... the same for a list of indices / keys / mask bits the caller keeps using
+                lst.reverse()
+                lst.append(lst[0])
+                del lst[0]
         return done(out)
     if op == 'shuffle_once':
         return done(ds.shuffle(False, rng=np.random.RandomState(node['seed'])))
